@@ -62,6 +62,10 @@ def run(tier, seed, res, lean):
     for b in br_bad[:3]:
         res.violations.append(Violation('c08-memo-bracketing', b['msg'][:300], {'suite': 'S-CACHE/bracketings', **b}))
     res.coverage['bracketing_calls'] = br_calls
+    sl_calls, sl_bad = suite_cache.run_stacked_lru(seed)
+    for b in sl_bad[:3]:
+        res.violations.append(Violation('c08-stacked-lru', b['msg'][:300], {'suite': 'S-CACHE/stacked', **b}))
+    res.coverage['stacked_lru_calls'] = sl_calls
     # the id mappings of Join / GroupBy / Split are computed once per pipeline object: reading ids again, and a call of a field for one
     # entry, do not compute them again (S-REL, memo part)
     from .. import suite_rel
